@@ -28,11 +28,13 @@ def orders_for(nc, tier):
     """derivative orders to enumerate for a pinned coefficient count: all 0..nc-1, nc (beyond degree) -- quick tier samples"""
     ks = list(range(0, nc + 1))
     if tier == 'quick':
-        if nc <= 4:
+        if nc <= 3:
             return ks
-        if nc <= 8:
+        if nc <= 4:
             return [0, nc - 1, nc]
-        return [nc - 2, nc]
+        if nc <= 8:
+            return [0, nc]
+        return [nc - 2]
     return ks
 
 
